@@ -292,6 +292,29 @@ func runPure(hdr Header, c any, src string) CaseResult {
 			vec.WriteByte('F')
 		}
 	}
+	// the verdict is a function of (schema, instance) alone: the same instances in the opposite order, on the
+	// Resolved that has seen the whole forward history and on one that has seen nothing yet
+	if fresh, ferr := s.Resolve(opts()); ferr == nil {
+		verd := vec.String()
+		k := len(verd)
+		for i := len(insts) - 1; i >= 0; i-- {
+			if es, _ := abs.Seq(cm["exp"])[i].(string); es == "x" {
+				continue
+			}
+			k--
+			ij := abs.ValueJSON(insts[i])
+			var v any
+			json.Unmarshal([]byte(ij), &v)
+			want := verd[k] == 'T'
+			res.Evals += 2
+			if got := rs1.Validate(v) == nil; got != want {
+				return fail("validate-nondeterministic", want, got, "the verdict depends on which instances were validated before on the same Resolved: "+ij)
+			}
+			if got := fresh.Validate(v) == nil; got != want {
+				return fail("validate-nondeterministic", want, got, "a fresh Resolved validating the instances in the opposite order gives another verdict: "+ij)
+			}
+		}
+	}
 	if snapAll() != loaded {
 		return fail("validate-modifies-schema", loaded, snapAll(), "Validate modified the schema or a Loader document")
 	}
